@@ -2,6 +2,8 @@
   Driver for the framing model (C07).
 
     req  <maxLen> <bytes>                    → `ret <pkgLen> <status>` | `panic`
+    session <s|c> <maxLen> <chunk>… | <chunk>… | …  → one `feed` answer per connection, joined by ` | `
+                                               (every connection starts with `reconnect`)
     feed <s|c> <maxLen> <chunk> <chunk> …    → `st=<o|c|p> buf=<len>:<hash> trace=<n><o|c|p>,… pk=<len>:<hash>,…`
 
   `<bytes>`/`<chunk>`: `-` (empty) or comma-separated parts, each `hex` or `hex*count` (the hex
@@ -58,6 +60,13 @@ def commaSep (xs : List String) : String :=
 def parseSide (s : String) : Option Side :=
   if s = "s" then some .server else if s = "c" then some .client else none
 
+/-- split a word list at the words `|` -/
+def splitWords (ws : List String) : List (List String) :=
+  let rec go : List String → List String → List (List String) → List (List String)
+    | [], cur, acc => (cur.reverse :: acc).reverse
+    | w :: rest, cur, acc => if w = "|" then go rest [] (cur.reverse :: acc) else go rest (w :: cur) acc
+  go ws [] []
+
 def handle (ws : List String) : String :=
   match ws with
   | ["req", m, b] =>
@@ -74,6 +83,17 @@ def handle (ws : List String) : String :=
       let tr := r.2.2.map fun (n, s) => s!"{n}{stName s}"
       let pk := r.2.1.map summary
       s!"st={stName r.1.status} buf={summary r.1.buf} trace={commaSep tr} pk={commaSep pk}"
+    | _, _, _ => "bad-op"
+  | "session" :: side :: m :: rest =>
+    -- connections separated by the word `|`
+    let groups := splitWords rest
+    match parseSide side, parseInt? m, groups.mapM parseChunks with
+    | some sd, some maxLen, some conns =>
+      let rs := conns.map fun cs =>
+        let r := feedTrace sd maxLen (reconnect Conn.init) 0 cs
+        let tr := r.2.2.map fun (n, s) => s!"{n}{stName s}"
+        s!"st={stName r.1.status} buf={summary r.1.buf} trace={commaSep tr} pk={commaSep (r.2.1.map summary)}"
+      String.intercalate " | " rs
     | _, _, _ => "bad-op"
   | _ => "bad-op"
 
